@@ -167,7 +167,13 @@ impl Wdb2Header {
 
                 // Calculate index array size to skip
                 let index_array_size = if max_index > 0 {
-                    let diff = (max_index - min_index + 1) as u64;
+                    // Widen before subtracting: both bounds come from the file
+                    let diff = max_index as i64 - min_index as i64 + 1;
+                    let diff = u64::try_from(diff).map_err(|_| {
+                        Error::InvalidHeader(format!(
+                            "Minimum index {min_index} is greater than maximum index {max_index}"
+                        ))
+                    })?;
                     // Index array: diff * 4 bytes (u32 per entry)
                     // String length array: diff * 2 bytes (u16 per entry)
                     diff * 4 + diff * 2
